@@ -47,13 +47,13 @@ func (w *withCodec) Exec(op Tok) (opOut Tok, obs Tok) {
 	case opWriteTo:
 		c := w.codecAt(a[1].I())
 		if c == nil {
-			return opOut, inv
+			return TL(a[0], a[1]), inv
 		}
 		o, s := doWriteTo(c)
 		if s != nil {
-			w.rec.streams[step] = s
+			w.rec.streams[labelOf(a, step)] = s
 		}
-		return opOut, o
+		return TL(a[0], a[1]), o
 	case opReadFrom:
 		c := w.codecAt(a[1].I())
 		src, ok := w.rec.streams[a[2].I()]
@@ -75,13 +75,13 @@ func (w *withCodec) Exec(op Tok) (opOut Tok, obs Tok) {
 	case opExport:
 		b, err := w.exportBytes(a[1].I())
 		if err != nil {
-			return opOut, TErr(errGeneric)
+			return TL(a[0], a[1]), TErr(errGeneric)
 		}
 		if b == nil {
-			return opOut, inv
+			return TL(a[0], a[1]), inv
 		}
-		w.rec.exports[step] = b
-		return opOut, TOk(w.docTok(b))
+		w.rec.exports[labelOf(a, step)] = b
+		return TL(a[0], a[1]), TOk(w.docTok(b))
 	case opImport:
 		src, ok := w.rec.exports[a[2].I()]
 		if !ok || w.codecAt(a[1].I()) == nil {
@@ -440,4 +440,13 @@ func (m *topkMem) mutate(i, sel int, v uint64) Tok {
 	nv := h[idx].Value + "~"
 	gx.VerifTopKSetHeapEntry(t, idx, nv, h[idx].Frequency)
 	return TL(TNi(opMutate), TNi(i), TNi(idx), TBs([]byte(nv)), TNu(h[idx].Frequency))
+}
+
+// labelOf: WriteTo/Export ops may carry a label (third field) under which the produced bytes are
+// recorded; later ops refer to it. Labels survive shrinking, step indices would not.
+func labelOf(a []Tok, step int) int {
+	if len(a) >= 3 {
+		return a[2].I()
+	}
+	return step
 }
